@@ -8,6 +8,7 @@ import (
 	"encoding/base64"
 	"encoding/json"
 	"fmt"
+	"math/big"
 	"net/http"
 	"net/http/httptest"
 	"sort"
@@ -375,6 +376,14 @@ func genJ(rng *vh.Rng, depth int) interface{} {
 	case k == 1:
 		return rng.Bool()
 	case k == 2:
+		switch rng.Intn(5) {
+		case 0: // integers beyond 2^53, which float64 cannot hold
+			return json.Number([]string{"9007199254740993", "18446744073709551615", "-9223372036854775809", "123456789012345678901234567890"}[rng.Intn(4)])
+		case 1: // more digits than a float64 keeps
+			return json.Number([]string{"0.1234567890123456789", "3.14159265358979323846", "1e400", "-2.5e-400"}[rng.Intn(4)])
+		case 2:
+			return json.Number([]string{"1.0", "1e2", "10e-1", "-0", "0.50"}[rng.Intn(5)])
+		}
 		return float64(rng.Intn(2000)) / 8
 	case k == 3 || depth <= 0:
 		return genUTF8(rng, rng.Intn(6))
@@ -408,10 +417,9 @@ func tokens(v interface{}) string {
 		}
 		return "f"
 	case float64:
-		return "#" + vh.Hex([]byte(strconv.FormatFloat(x, 'g', -1, 64)))
+		return "#" + vh.Hex([]byte(canonNum(strconv.FormatFloat(x, 'g', -1, 64))))
 	case json.Number:
-		f, _ := x.Float64()
-		return "#" + vh.Hex([]byte(strconv.FormatFloat(f, 'g', -1, 64)))
+		return "#" + vh.Hex([]byte(canonNum(string(x))))
 	case string:
 		return "s" + vh.Hex([]byte(x))
 	case []interface{}:
@@ -433,6 +441,25 @@ func tokens(v interface{}) string {
 		return strings.Join(append(parts, "}"), " ")
 	}
 	return "?"
+}
+
+// canonNum: the exact value of a JSON number literal as a fraction in lowest terms ("1.0", "1" and "10e-1" agree;
+// 9007199254740993 and 9007199254740992 do not).
+func canonNum(lit string) string {
+	r, ok := new(big.Rat).SetString(lit)
+	if !ok {
+		return "?" + lit
+	}
+	return r.RatString()
+}
+
+// decodeExact decodes JSON keeping numbers as literals.
+func decodeExact(b []byte) (interface{}, error) {
+	d := json.NewDecoder(bytes.NewReader(b))
+	d.UseNumber()
+	var v interface{}
+	err := d.Decode(&v)
+	return v, err
 }
 
 func suiteWsInject(e *vh.Env) {
@@ -500,8 +527,8 @@ func suiteWsInject(e *vh.Env) {
 			continue
 		}
 		got := be.received()[before]
-		var gv interface{}
-		if err := json.Unmarshal(got.data, &gv); err != nil {
+		gv, err := decodeExact(got.data)
+		if err != nil {
 			e.Fail("C11:inject-output-not-json", string(got.data), i, nil, nil, nil)
 			continue
 		}
@@ -517,8 +544,7 @@ func suiteWsInject(e *vh.Env) {
 		e.Op("inject "+strings.Join(hs, ",")+" "+tokens(v), tokens(gv))
 		// oracle from the property: only resource.headers may change, and only by additions of request headers
 		if !target {
-			var orig interface{}
-			json.Unmarshal(text, &orig)
+			orig, _ := decodeExact(text)
 			if tokens(orig) != tokens(gv) {
 				e.Fail("C11:inject-changed-non-target", fmt.Sprintf("message %s without an object at resource.headers was changed to %s", text, got.data), i, nil, nil, nil)
 			}
@@ -558,7 +584,6 @@ func suiteWsInject(e *vh.Env) {
 
 func jsonRoundTrip(v interface{}) interface{} {
 	b, _ := json.Marshal(v)
-	var o interface{}
-	json.Unmarshal(b, &o)
+	o, _ := decodeExact(b)
 	return o
 }
